@@ -616,6 +616,23 @@ def subscript(I, base, key):
                 return Vec([Vec([x]) for x in base.items], col=True)
             if len(key) == 2 and key[0] is None and key[1] == slice(None, None, None):
                 return Vec([Vec(list(base.items))])
+            if len(key) == 2 and base.items and all(isinstance(r, Vec) for r in base.items) \
+                    and (isinstance(key[0], Vec) or isinstance(key[1], Vec)):
+                # 2-D array with a boolean mask on one axis and ':' on the other
+                rk, ck = key
+
+                def decided(mask, n):
+                    vals = [k_ if isinstance(k_, bool) else (True if k_ is sp.true else False if k_ is sp.false else None) for k_ in mask.items]
+                    if len(vals) != n or None in vals:
+                        raise AnalysisError("boolean mask with undecided entries")
+                    return vals
+                if isinstance(rk, Vec) and ck == slice(None, None, None):
+                    keep = decided(rk, len(base.items))
+                    return Vec(r for r, k_ in zip(base.items, keep) if k_)
+                if isinstance(ck, Vec) and rk == slice(None, None, None):
+                    keep = decided(ck, len(base.items[0].items))
+                    return Vec(Vec(x for x, k_ in zip(r.items, keep) if k_) for r in base.items)
+                raise AnalysisError("array index form")
             if len(key) == 2 and base.items and all(isinstance(r, Vec) for r in base.items):
                 # 2-D array: a[rows, cols] with ints / slices
                 rk, ck = key
